@@ -225,6 +225,10 @@ def run_check(mod, tier, seed, jobs=None, only_units=None):
     t0 = time.time()
     jobs = jobs or int(os.environ.get('VERIF_JOBS', '0')) or os.cpu_count() or 4
     outdir = os.path.join(common.VERIF_DIR, 'out', check_id)
+    if os.environ.get('VERIF_REPO') and common.REPO != '/repo':
+        # runs against a scratch copy (seeded change) keep their files apart from
+        # those of a concurrent run against the repository itself
+        outdir += '.scratch-copy'
     os.makedirs(outdir, exist_ok=True)
     for fn in os.listdir(outdir):
         if fn.startswith(('shard-', 'units-', 'replay-')):
